@@ -179,6 +179,12 @@ Proof.
 Qed.
 Print Assumptions source_switches_and_guarded_blocks.
 
+(* 10b. the source: the thirteen CELLO_BOUND_CHECK blocks (Array, List, Tuple, Table) have the audited
+        index normalisation and test — a changed comparison is a broken obligation *)
+Theorem source_bound_guards : list_eqb str3_eqb cfg_bound_guards audited_bound_guards = true.
+Proof. exact ConfigProofs.bound_guards_audited. Qed.
+Print Assumptions source_bound_guards.
+
 (* 11. the source: the places where the collector (CELLO_NGC) and the method cache (CELLO_CACHE) are
        compiled in or out are the audited ones (a new one must be looked at); the cache wiring of
        Type_Instance gives every class its own slot, all inside the CELLO_CACHE_NUM slots *)
